@@ -1,12 +1,268 @@
 /-
-  C07 — Packing never changes what is observable at or after the pack time.  (work in progress)
--/
-import ZodbModel.Pack
-namespace Props.C07
-open ZodbModel ZodbModel.Pack
+  C07 — Packing never changes what is observable at or after the pack time.
 
-/-- packing an empty database is a no-op -/
-theorem pack_empty_noop (T : Tid) (gc : Bool) : (packFS [] T gc).hist [] = [] := by
-  simp [packFS, PackOut.hist]
+  Property theorems only (lemmas: `Proofs/Pack*.lean`; model: `ZodbModel/Pack.lean`,
+  `ZodbModel/Reach.lean`).  Vocabulary:
+
+    History            commit-ordered list of transactions; a record is (oid, data?, refs, back?)
+    loadBefore h o b   the storage's answer (data, serial, end tid | None | KeyError) for snapshot b
+    ReachableAt h b o  o is reachable from the root (oid 0) through `refs` in the snapshot before b
+    packFS h T gc      FileStorage.pack as coded in fspack.py (GC marks, copyToPacktime, copyRest);
+                       `(packFS h T gc).hist h` is the history afterwards (unchanged unless `.ok`)
+    packMapping s T gc MappingStorage.pack (already-packed guard, step 1, step 2)
+
+  The pack time `T` is a tid; "before the pack time" is `tid ≤ T` exactly as both storages compare
+  (`th.tid > self.packtime: break`, `tid_data.keys(None, stop)`), "observable at or after T" is the
+  set of pairs (snapshot bound b > T, oid reachable in that snapshot).
+
+  What is proved at full strength, what only in part (and why) — in this order below:
+    FileStorage   pack_preserves_loads           under the explicit hypothesis `NoResurrection`
+                                                  (strengthened w.r.t. DESIGN: the DESIGN form is
+                                                  refuted by `pack_preserves_loads_weakNR_false`)
+                  pack_keeps_later_txns, pack_backpointers_consistent      full
+                  pack_removes_only_R_partial     sentence 1 without its "not written afterwards"
+                                                  clause; the full sentence is refuted for the code
+                                                  by `pack_removes_only_R_false_for_FileStorage`
+                                                  (recorded defect C07:fs-gc-drops-current-revision-
+                                                  of-garbage-object-written-after-T)
+                  pack_idempotent_partial / pack_earlier_noop_partial
+                                                  under `NoBackToTombstone`; without it refuted by
+                                                  `pack_idempotent_false_for_FileStorage` (recorded
+                                                  defect C07:fs-repack-same-time-removes-more)
+                  pack_empty_noop, pack_failure_unchanged, pack_never_out_of_fuel   full
+    MappingStorage mapping_pack_preserves_loads (no NoResurrection needed), mapping_pack_keeps_later_txns,
+                  mapping_pack_removes_only_R (sentence 1 in full), mapping_pack_idempotent,
+                  mapping_pack_earlier_refused, mapping_pack_empty_noop            full
+-/
+import Proofs.PackIdem
+namespace Props.C07
+open ZodbModel ZodbModel.Pack Proofs.Pack
+
+/-! ## FileStorage -/
+
+/-- **Sentence 2 (loads).**  For every snapshot bound `b` above the pack time and every object
+    reachable from the root in that snapshot, the packed storage returns the same data, the same
+    serial and the same end tid.  gc off: no further hypothesis.  gc on: `NoResurrection h T` — no
+    record written after `T` references an oid that is unreachable at `T`, unless that oid has a
+    record with `T < tid ≤` the referencing tid (sentence 1 allows such an object to be removed;
+    the harness measures how often generated histories meet the hypothesis).
+    `NoDangling` of the DESIGN is not needed: a dangling reference makes the gc pack fail with
+    KeyError, which changes nothing (`pack_failure_unchanged`). -/
+theorem pack_preserves_loads (h : History) (T : Tid) (gc : Bool) (hs : Sorted h)
+    (hNR : gc = true → NoResurrection h T) :
+    ∀ b, T < b → ∀ o, ReachableAt h b o → ∀ d s e, loadBefore h o b = .some d s e →
+      loadBefore ((packFS h T gc).hist h) o b = .some d s e :=
+  fun _ hb _ hr _ _ _ hl => packFS_preserves_loads hs hNR hb hr hl
+
+/-- the state an undo of a transaction after the pack time restores (the revision current just
+    before that transaction) is still there: undo behaves identically -/
+theorem pack_preserves_undo_target (h : History) (T : Tid) (gc : Bool) (hs : Sorted h)
+    (hNR : gc = true → NoResurrection h T) (t : Txn) (_ht : t ∈ h) (hgt : T < t.tid) :
+    ∀ o, ReachableAt h t.tid o → ∀ d s e, loadBefore h o t.tid = .some d s e →
+      loadBefore ((packFS h T gc).hist h) o t.tid = .some d s e :=
+  fun _ hr _ _ _ hl => packFS_preserves_loads hs hNR hgt hr hl
+
+/-- **Sentence 2 (transactions).**  Every transaction after the pack time is still there, in
+    order, with identical status, metadata and records (oid, data, length, references); `Txn.core`
+    only forgets whether a record is stored as data or as a back pointer … -/
+theorem pack_keeps_later_txns (h : History) (T : Tid) (gc : Bool) (hs : Sorted h) :
+    (((packFS h T gc).hist h).filter (fun t => decide (T < t.tid))).map Txn.core =
+      (h.filter (fun t => decide (T < t.tid))).map Txn.core :=
+  packFS_keeps_later hs
+
+/-- … and every back pointer of the packed history again points to an older record of the same
+    oid that resolves to the same data (so iteration and undo read the same pickles). -/
+theorem pack_backpointers_consistent (h : History) (T : Tid) (gc : Bool) (hs : Sorted h)
+    (hb : BackOK h) : BackOK ((packFS h T gc).hist h) :=
+  packFS_backOK hs hb
+
+/-- **Sentence 1, partial.**  A record that is gone after the pack was written at or before the
+    pack time, and either was superseded at the pack time or belongs to an object that is not
+    (reachable from the root and existing) at the pack time.
+    FULL STATEMENT (false for FileStorage, see next theorem): … and has no record after `T`. -/
+theorem pack_removes_only_R_partial (h : History) (T : Tid) (gc : Bool) (hs : Sorted h)
+    (t : Txn) (ht : t ∈ h) (r : Rec) (hr : r ∈ t.recs)
+    (hgone : hasRec ((packFS h T gc).hist h) t.tid r.oid = false) :
+    t.tid ≤ T ∧ (supersededAt h T t.tid r.oid = true ∨
+      ¬ (ReachableAtT h T r.oid ∧ LiveAt h (T + 1) r.oid)) :=
+  packFS_removes_only hs ht hr hgone
+
+/-- witness history of the recorded defect: oid 1 is garbage at `T = 5` and written again at 6 -/
+def exGarbageWritten : History :=
+  [⟨2, false, 3, [], [⟨0, some [10], 50, [1], none⟩, ⟨1, some [1], 50, [], none⟩]⟩,
+   ⟨4, false, 3, [], [⟨0, some [11], 50, [], none⟩]⟩,
+   ⟨6, false, 3, [], [⟨1, some [2], 50, [], none⟩]⟩]
+
+/-- **Sentence 1 in full is false for FileStorage**: the gc pack removes revision (tid 2, oid 1),
+    which is not superseded at `T = 5` and whose object *is* written after `T`. -/
+theorem pack_removes_only_R_false_for_FileStorage :
+    ∃ h T, Sorted h ∧ ∃ t ∈ h, ∃ r ∈ t.recs,
+      hasRec ((packFS h T true).hist h) t.tid r.oid = false ∧
+      supersededAt h T t.tid r.oid = false ∧ writtenAfter h T r.oid = true :=
+  ⟨exGarbageWritten, 5, sortedB_sound (by decide),
+    ⟨2, false, 3, [], [⟨0, some [10], 50, [1], none⟩, ⟨1, some [1], 50, [], none⟩]⟩, by decide,
+    ⟨1, some [1], 50, [], none⟩, by decide, by decide, by decide, by decide⟩
+
+/-- witness: garbage at `T = 5` (tid 4), referenced again at 6 without being written, written at 8 -/
+def exWeakNR : History :=
+  [⟨2, false, 3, [], [⟨0, some [10], 50, [1], none⟩, ⟨1, some [1], 50, [], none⟩]⟩,
+   ⟨4, false, 3, [], [⟨0, some [11], 50, [], none⟩]⟩,
+   ⟨6, false, 3, [], [⟨0, some [12], 50, [1], none⟩]⟩,
+   ⟨8, false, 3, [], [⟨1, some [2], 50, [], none⟩]⟩]
+
+/-- **The DESIGN's weaker NoResurrection does not suffice**: under it (the referenced oid has
+    *some* record after `T`) oid 1 is reachable in the snapshot before 7 and loads revision 2
+    before the pack, and does not load afterwards. -/
+theorem pack_preserves_loads_weakNR_false :
+    ∃ h T b o d s e, Sorted h ∧ NoResurrectionWeak h T ∧ T < b ∧ ReachableAt h b o ∧
+      loadBefore h o b = .some d s e ∧ loadBefore ((packFS h T true).hist h) o b ≠ .some d s e :=
+  ⟨exWeakNR, 5, 7, 1, [1], 2, some 8, sortedB_sound (by decide),
+    noResurrectionWeakB_sound (by decide), by decide,
+    (reachListAt_sound (L := [1, 0]) (by decide) 1).1 (by decide), by decide, by decide⟩
+
+/-- **Sentence 3, partial** (same time).  Packing again to the same time with the same gc flag
+    changes nothing (it is refused as redundant, fails, or frees nothing) — provided no undo record
+    at or before `T` resolves to an un-creation.
+    FULL STATEMENT (false for FileStorage, see `pack_idempotent_false_for_FileStorage`): without
+    `NoBackToTombstone`. -/
+theorem pack_idempotent_partial (h : History) (T : Tid) (hs : Sorted h)
+    (hNB : NoBackToTombstone h T) (h' : History) (hp : packFS h T false = .ok h') :
+    (packFS h' T false).hist h' = h' :=
+  packFS_repack_nogc hs hNB hp (Nat.le_refl T)
+
+/-- **Sentence 3, partial** (earlier time). -/
+theorem pack_earlier_noop_partial (h : History) (T T' : Tid) (hs : Sorted h)
+    (hNB : NoBackToTombstone h T) (hle : T' ≤ T) (h' : History) (hp : packFS h T false = .ok h') :
+    (packFS h' T' false).hist h' = h' :=
+  packFS_repack_nogc hs hNB hp hle
+
+/-- witness of the recorded defect: oid 1 is created (4), un-created by undo (6), re-created (8),
+    and that is undone (10) by a record whose back pointer resolves to the un-creation of 6 -/
+def exRepack : History :=
+  [⟨2, false, 3, [], [⟨0, some [10], 50, [], none⟩]⟩,
+   ⟨4, false, 3, [], [⟨1, some [1], 50, [], none⟩]⟩,
+   ⟨6, false, 3, [], [⟨1, none, 0, [], none⟩]⟩,
+   ⟨8, false, 3, [], [⟨1, some [2], 50, [], none⟩]⟩,
+   ⟨10, false, 3, [], [⟨1, none, 0, [], some 6⟩]⟩,
+   ⟨12, false, 3, [], [⟨0, some [11], 50, [], none⟩]⟩]
+
+/-- **Sentence 3 in full is false for FileStorage**: the second gc-off pack to the same time
+    removes the packed un-creation record (tid 10, oid 1) the first one kept. -/
+theorem pack_idempotent_false_for_FileStorage :
+    ∃ h T, Sorted h ∧ BackOK h ∧
+      (packFS ((packFS h T false).hist h) T false).hist ((packFS h T false).hist h) ≠
+        (packFS h T false).hist h :=
+  ⟨exRepack, 11, sortedB_sound (by decide), backOKB_sound (by decide), by decide⟩
+
+/-- packing an empty database (no record at all) is a no-op -/
+theorem pack_empty_noop (h : History) (T : Tid) (gc : Bool)
+    (hemp : ∀ t ∈ h, t.recs = []) : packFS h T gc = .noop := by
+  unfold packFS
+  have : h.all (fun t => t.recs.isEmpty) = true := by
+    rw [List.all_eq_true]; intro t ht; simp [hemp t ht]
+  simp [this]
+
+/-- a pack that is refused (redundant), fails (dangling reference: KeyError; gc off with a back
+    pointer to a dropped record: PackError / AssertionError) or frees nothing leaves the history
+    exactly as it was -/
+theorem pack_failure_unchanged (h : History) (T : Tid) (gc : Bool)
+    (hne : ∀ h', packFS h T gc ≠ .ok h') : (packFS h T gc).hist h = h := by
+  cases hp : packFS h T gc with
+  | ok h' => exact absurd hp (hne h')
+  | noop => rfl
+  | redundant => rfl
+  | error _ => rfl
+
+/-- the reachability search never runs out of the fuel it is given (`Reach.closure_isSome`) -/
+theorem pack_never_out_of_fuel (h : History) (T : Tid) (gc : Bool) : packFS h T gc ≠ .error .fuel :=
+  packFS_ne_fuel h T gc
+
+/-! ## MappingStorage -/
+
+/-- loads: every object reachable in a snapshot above the pack time answers identically — with
+    no NoResurrection hypothesis (the sweep follows the references of every remaining revision and
+    starts from every object written after the pack time) and whatever the outcome of the pack
+    (done, refused, KeyError for a dangling reference after step 1) -/
+theorem mapping_pack_preserves_loads (s : MState) (T : Tid) (gc : Bool) (hs : Sorted s.h) :
+    ∀ b, T < b → ∀ o, ReachableAt s.h b o →
+      loadBefore (packMapping s T gc).1.h o b = loadBefore s.h o b :=
+  fun _ hb _ hr => packMapping_preserves_loads hs hb hr
+
+/-- every transaction after the pack time is untouched -/
+theorem mapping_pack_keeps_later_txns (s : MState) (T : Tid) (gc : Bool) :
+    (packMapping s T gc).1.h.filter (fun t => decide (T < t.tid)) =
+      s.h.filter (fun t => decide (T < t.tid)) :=
+  packMapping_keeps_later s T gc
+
+/-- **Sentence 1 in full**: a removed record was written at or before the pack time and was
+    superseded at the pack time, or belongs to an object unreachable at the pack time that has no
+    record afterwards -/
+theorem mapping_pack_removes_only_R (s : MState) (T : Tid) (gc : Bool) (hs : Sorted s.h)
+    (t : Txn) (ht : t ∈ s.h) (r : Rec) (hr : r ∈ t.recs)
+    (hgone : hasRec (packMapping s T gc).1.h t.tid r.oid = false) :
+    t.tid ≤ T ∧ (supersededAt s.h T t.tid r.oid = true ∨
+      (¬ ReachableAtT s.h T r.oid ∧ writtenAfter s.h T r.oid = false)) :=
+  packMapping_removes_only_R hs ht hr hgone
+
+/-- packing again to the same or an earlier time changes nothing: same time = no-op, earlier time
+    = refused (ValueError) -/
+theorem mapping_pack_idempotent (s : MState) (T T' : Tid) (gc gc' : Bool) (hle : T' ≤ T) :
+    (packMapping (packMapping s T gc).1 T' gc').1 = (packMapping s T gc).1 ∨
+      (packMapping s T gc).1 = s := by
+  rcases packMapping_lastPack_cases s T gc with e | e
+  · exact Or.inr e
+  · exact Or.inl (packMapping_of_lastPack_ge e hle)
+
+theorem mapping_pack_earlier_refused (s : MState) (T T' : Tid) (gc : Bool) (hlt : T' < T)
+    (hl : s.lastPack = some T) (hne : s.h.all (fun t => t.recs.isEmpty) = false) :
+    packMapping s T' gc = (s, .error .valueError) := by
+  unfold packMapping
+  simp only [hne, hl, Bool.false_eq_true, if_false, Option.any_some, beq_iff_eq, decide_eq_true_eq]
+  rw [if_neg (by omega), if_pos hlt]
+
+theorem mapping_pack_empty_noop (lp : Option Tid) (T : Tid) (gc : Bool) :
+    packMapping ⟨[], lp⟩ T gc = (⟨[], lp⟩, .noop) := by
+  simp [packMapping]
+
+/-! ## non-vacuity: a history with an undo record whose back pointer crosses the pack time, with
+    garbage, on which the gc pack frees a record and every hypothesis above holds -/
+
+/-- tid 2: root→[1,2], oid 1 = A, oid 2, oid 3 (garbage).  tid 4: oid 1 = B (→[2]).  pack time 5.
+    tid 6: undo of 4 (oid 1 back pointer to tid 2).  tid 8: root→[1]. -/
+def exH : History :=
+  [⟨2, false, 3, [], [⟨0, some [10], 50, [1, 2], none⟩, ⟨1, some [1], 50, [], none⟩,
+                      ⟨2, some [3], 50, [], none⟩, ⟨3, some [4], 50, [], none⟩]⟩,
+   ⟨4, false, 3, [], [⟨1, some [2], 50, [2], none⟩]⟩,
+   ⟨6, false, 3, [], [⟨1, some [1], 50, [], some 2⟩]⟩,
+   ⟨8, false, 3, [], [⟨0, some [11], 50, [1], none⟩]⟩]
+
+example : Sorted exH := sortedB_sound (by decide)
+example : BackOK exH := backOKB_sound (by decide)
+example : NoResurrection exH 5 := noResurrectionB_sound (by decide)
+example : NoBackToTombstone exH 5 := by
+  intro t ht _ r hr hb
+  simp only [exH, List.mem_cons, List.mem_nil_iff, or_false] at ht
+  rcases ht with rfl | rfl | rfl | rfl <;> simp at hr <;>
+    (try rcases hr with rfl | rfl | rfl | rfl) <;> (try subst hr) <;> simp at hb ⊢
+/-- the pack succeeds, drops the garbage revision (2, oid 3), keeps the non-current revision
+    (2, oid 1) the undo record points to, and keeps the back pointer -/
+example : (packFS exH 5 true).hist exH =
+    [⟨2, true, 3, [], [⟨0, some [10], 50, [1, 2], none⟩, ⟨1, some [1], 50, [], none⟩,
+                       ⟨2, some [3], 50, [], none⟩]⟩,
+     ⟨4, true, 3, [], [⟨1, some [2], 50, [2], none⟩]⟩,
+     ⟨6, false, 3, [], [⟨1, some [1], 50, [], some 2⟩]⟩,
+     ⟨8, false, 3, [], [⟨0, some [11], 50, [1], none⟩]⟩] := by decide
+example : loadBefore exH 1 9 = .some [1] 6 none := by decide
+example : loadBefore exH 1 6 = .some [2] 4 (some 6) := by decide
+example : ReachableAt exH 6 2 := (reachListAt_sound (L := [2, 1, 0]) (by decide) 2).1 (by decide)
+/-- gc off refuses this history (the back pointer's target record would be dropped):
+    AssertionError, nothing changes -/
+example : packFS exH 5 false = .error .assertion := by decide
+/-- MappingStorage on the witness of the FileStorage defect: the superseded root revision goes,
+    revision (2, oid 1) of the garbage object written again at 6 stays -/
+example : (packMapping ⟨exGarbageWritten, none⟩ 5 true).1.h =
+    [⟨2, true, 3, [], [⟨1, some [1], 50, [], none⟩]⟩,
+     ⟨4, false, 3, [], [⟨0, some [11], 50, [], none⟩]⟩,
+     ⟨6, false, 3, [], [⟨1, some [2], 50, [], none⟩]⟩] := by decide
 
 end Props.C07
